@@ -561,18 +561,32 @@ def check_resume_order(prog, rep):
     # save_results: sets _last_save, uses prepare_results_for_save when results is None
     sr = m.func('Simulation.save_results')
     rep.instance('RESUME-save-payload', {})
-    if 'self.prepare_results_for_save()' not in unparse(sr):
+    from ..pattern import P, has
+    if not has(P('self.prepare_results_for_save()'), inline_temps(sr)):
         rep.violation('RESUME-save-payload', m, 'Simulation.save_results', 'payload',
                       'save_results must save prepare_results_for_save()', sr.lineno)
     pr = m.func('Simulation.prepare_results_for_save')
-    srcp = unparse(pr)
-    if "results['resume_data'] = self.get_resume_data()" not in srcp or \
-            "results['simulation_parameters']" not in srcp:
+    npr = inline_temps(pr, aliases_only=True)
+    # the dict that is returned: stores of the two keys into it (whatever the local is called)
+    rets = {unparse(r.value) for r in ast.walk(npr) if isinstance(r, ast.Return) and
+            r.value is not None}
+    keys = {}
+    for st in stmts_of(npr):
+        if isinstance(st, ast.Assign) and isinstance(st.targets[0], ast.Subscript) and \
+                isinstance(st.targets[0].slice, ast.Constant) and \
+                unparse(st.targets[0].value) in rets:
+            keys[st.targets[0].slice.value] = st.value
+    rd = keys.get('resume_data')
+    if rd is None or not pmatch(P('self.get_resume_data()'), rd) or \
+            'simulation_parameters' not in keys:
         rep.violation('RESUME-save-payload', m, 'Simulation.prepare_results_for_save',
                       'resume-data-missing',
                       'checkpoint results must contain simulation_parameters and resume_data '
                       '(needed by from_saved_checkpoint)', pr.lineno)
-    if 'self.results.copy()' not in srcp:
+    copied = any(isinstance(st, ast.Assign) and unparse(st.targets[0]) in rets and (
+        pmatch(P('self.results.copy()'), st.value) or pmatch(P('dict(self.results)'), st.value) or
+        pmatch(P('copy.copy(self.results)'), st.value)) for st in stmts_of(npr))
+    if not copied:
         rep.violation('RESUME-save-payload', m, 'Simulation.prepare_results_for_save',
                       'results-not-copied',
                       'prepare_results_for_save must work on a copy of self.results (it converts '
